@@ -515,6 +515,78 @@ func (e *SpecEnv) call(n SCall) *Val {
 		return &Val{K: VInt, T: Num(int64(typeID(types.NewPointer(t))))}
 	case "zeroCoins":
 		return &Val{K: VCoins, T: zeroCoinsT}
+	case "typeId":
+		s, ok := n.Args[0].(SStrLit)
+		if !ok {
+			sfail("typeId(\"*pkg.Type\")")
+		}
+		return &Val{K: VInt, T: Num(int64(typeID(e.x.P.resolveType(e.pkg, s.S))))}
+	case "ptr":
+		// ptr("*pkg.Type", ref): view an integer reference (e.g. $evRef[i]) as a pointer to that type
+		s, ok := n.Args[0].(SStrLit)
+		if !ok {
+			sfail("ptr(\"*pkg.Type\", ref)")
+		}
+		t := e.x.P.resolveType(e.pkg, s.S)
+		return &Val{K: VPtr, Typ: t, T: toInt(e.eval(n.Args[1])), Ptr: &PtrInfo{Base: PObj, Root: ptrElem(t)}}
+	case "fieldRow":
+		// fieldRow(slice, "Field"): the backing-array row of one scalar field of a slice of structs, as a spec array
+		// indexed by backing index (element i of the slice is at index off(slice)+i)
+		v := e.eval(n.Args[0])
+		s, ok := n.Args[1].(SStrLit)
+		if v.K != VSlice || !ok {
+			sfail("fieldRow(slice, \"Field\")")
+		}
+		et := sliceElem(v.Typ)
+		path, ok := fieldPath(et, s.S, 0)
+		if !ok {
+			sfail("fieldRow: %s has no field %s", typeString(et), s.S)
+		}
+		prefix, ft := pathPrefix(et, path)
+		fl := flatten(ft)
+		if len(fl) != 1 {
+			sfail("fieldRow: field %s is not a scalar", s.S)
+		}
+		_, h := e.st.heapArr(et, Leaf{prefix + fl[0].Path, fl[0].Sort, fl[0].Ref}, true)
+		return &Val{K: VArr, T: Select(h, v.T)}
+	case "elemRow":
+		// elemRow(slice): the backing-array row of a slice of scalars (ints, pointers, strings), indexed by backing index
+		v := e.eval(n.Args[0])
+		if v.K != VSlice {
+			sfail("elemRow(slice)")
+		}
+		et := sliceElem(v.Typ)
+		fl := flatten(et)
+		if len(fl) != 1 {
+			sfail("elemRow: element type %s is not a scalar", typeString(et))
+		}
+		_, h := e.st.heapArr(et, fl[0], true)
+		return &Val{K: VArr, T: Select(h, v.T)}
+	case "heapOf":
+		// heapOf("pkg.Type", "Field"): the current heap column of one scalar field of a struct type, indexed by object reference
+		ts, ok1 := n.Args[0].(SStrLit)
+		fs, ok2 := n.Args[1].(SStrLit)
+		if !ok1 || !ok2 {
+			sfail("heapOf(\"pkg.Type\", \"Field\")")
+		}
+		t := e.x.P.resolveType(e.pkg, ts.S)
+		path, ok := fieldPath(t, fs.S, 0)
+		if !ok {
+			sfail("heapOf: %s has no field %s", typeString(t), fs.S)
+		}
+		prefix, ft := pathPrefix(t, path)
+		fl := flatten(ft)
+		if len(fl) != 1 {
+			sfail("heapOf: field %s is not a scalar", fs.S)
+		}
+		_, h := e.st.heapArr(t, Leaf{prefix + fl[0].Path, fl[0].Sort, fl[0].Ref}, false)
+		return &Val{K: VArr, T: h}
+	case "off":
+		v := e.eval(n.Args[0])
+		if v.K != VSlice {
+			sfail("off(slice)")
+		}
+		return &Val{K: VInt, T: v.Off}
 	case "storeOf":
 		// name of the KV store opened with the given store key (interface value)
 		v := e.eval(n.Args[0])
